@@ -1764,3 +1764,31 @@ def apply_simple_closures(facts, e, depth=3):
                         return val
         return y
     return rec(e)
+
+
+def resolve_const_item(facts, e, depth=3):
+    """a named constant whose initialiser is itself an expression over other constants (`const GATE: f32 =
+    CHI2INV95[4];`) -> that expression; anything else is returned unchanged"""
+    for _ in range(depth):
+        if e.kind != 'const' or not e.const.get('item') or e.proj:
+            return e
+        bs = facts.get(norm(e.const['item']))
+        if len(bs) != 1 or not str(bs[0].kind).startswith('Const'):
+            return e
+        r = ExprBuilder(bs[0]).place(0, ())
+        if r.kind == 'unknown' or repr(r) == repr(e):
+            return e
+        e = r
+    return e
+
+
+def feasible(conds):
+    """False when the conditions contradict what is statically known: a variant test on a value that was just built as
+    another variant (`Some(x)` tested `is None`, left over from a desugared combinator)"""
+    for c in conds:
+        if c.kind == 'discr' and c.expr is not None and c.variants:
+            alts = c.expr.args if c.expr.kind == 'phi' else [c.expr]
+            if alts and all(a.kind == 'agg' and '::' in (a.name or '') for a in alts):
+                if not any(a.name.rsplit('::', 1)[-1] in c.variants for a in alts):
+                    return False
+    return True
